@@ -4185,6 +4185,8 @@ class Unravel(Array):
         return *self.func.shape[:-1], self.sh1, self.sh2
 
     def _simplified(self):
+        if iszero(self.shape[-2]) or iszero(self.shape[-1]):
+            return zeros_like(self)
         if isunit(self.shape[-2]):
             return insertaxis(self.func, self.ndim-2, constant(1))
         if isunit(self.shape[-1]):
